@@ -26,9 +26,9 @@ PLAN = {
             {"run": "TestC01_CLI", "checks": 120},
         ],
         "thorough": [
-            {"run": "TestC01_Engine", "checks": 300000, "shards": 12, "timeout": 3000},
-            {"run": "TestC01_Shipped", "checks": 2000, "shards": 2, "timeout": 3000},
-            {"run": "TestC01_CLI", "checks": 3000, "shards": 2, "timeout": 3000},
+            {"run": "TestC01_Engine", "checks": 900000, "shards": 12, "timeout": 7200},
+            {"run": "TestC01_Shipped", "checks": 6000, "shards": 2, "timeout": 7200},
+            {"run": "TestC01_CLI", "checks": 9000, "shards": 2, "timeout": 7200},
         ],
     },
     "C02": {
@@ -39,9 +39,9 @@ PLAN = {
             {"run": "TestC02_Procs", "checks": 15},
         ],
         "thorough": [
-            {"run": "TestC02_Repeat", "checks": 100000, "shards": 12, "timeout": 3000},
-            {"run": "TestC02_Shipped", "checks": 400, "shards": 2, "timeout": 3000},
-            {"run": "TestC02_Procs", "checks": 400, "shards": 2, "timeout": 3000},
+            {"run": "TestC02_Repeat", "checks": 250000, "shards": 12, "timeout": 7200},
+            {"run": "TestC02_Shipped", "checks": 1000, "shards": 2, "timeout": 7200},
+            {"run": "TestC02_Procs", "checks": 1000, "shards": 2, "timeout": 7200},
         ],
     },
     "C03": {
@@ -50,8 +50,8 @@ PLAN = {
             {"run": "TestC03_Shipped", "checks": 60},
         ],
         "thorough": [
-            {"run": "TestC03_Scan", "checks": 200000, "shards": 14, "timeout": 3000},
-            {"run": "TestC03_Shipped", "checks": 1000, "shards": 2, "timeout": 3000},
+            {"run": "TestC03_Scan", "checks": 600000, "shards": 14, "timeout": 7200},
+            {"run": "TestC03_Shipped", "checks": 3000, "shards": 2, "timeout": 7200},
         ],
     },
     "C04": {
@@ -61,8 +61,8 @@ PLAN = {
             {"run": "TestC04_CLI", "checks": 60},
         ],
         "thorough": [
-            {"run": "TestC04_Filters", "checks": 300000, "shards": 14, "timeout": 3000},
-            {"run": "TestC04_CLI", "checks": 2000, "shards": 2, "timeout": 3000},
+            {"run": "TestC04_Filters", "checks": 900000, "shards": 14, "timeout": 7200},
+            {"run": "TestC04_CLI", "checks": 6000, "shards": 2, "timeout": 7200},
         ],
     },
     "C05": {
@@ -70,7 +70,7 @@ PLAN = {
             {"run": "TestC05_Cache", "checks": 1500},
         ],
         "thorough": [
-            {"run": "TestC05_Cache", "checks": 60000, "shards": 16, "timeout": 3000},
+            {"run": "TestC05_Cache", "checks": 180000, "shards": 16, "timeout": 7200},
         ],
     },
     "C06": {
@@ -79,8 +79,8 @@ PLAN = {
             {"run": "TestC06_Analysis", "checks": 20000},
         ],
         "thorough": [
-            {"run": "TestC06_Retain", "checks": 200000, "shards": 12, "timeout": 3000},
-            {"run": "TestC06_Analysis", "checks": 1000000, "shards": 4, "timeout": 3000},
+            {"run": "TestC06_Retain", "checks": 500000, "shards": 12, "timeout": 7200},
+            {"run": "TestC06_Analysis", "checks": 2500000, "shards": 4, "timeout": 7200},
         ],
     },
     "C07": {
@@ -89,7 +89,7 @@ PLAN = {
             {"run": "TestC07_Known"},
         ],
         "thorough": [
-            {"run": "TestC07_Fallback", "checks": 300000, "shards": 15, "timeout": 3000},
+            {"run": "TestC07_Fallback", "checks": 900000, "shards": 15, "timeout": 7200},
             {"run": "TestC07_Known"},
         ],
     },
@@ -99,7 +99,7 @@ PLAN = {
             {"run": "TestC08_Save", "checks": 150},
         ],
         "thorough": [
-            {"run": "TestC08_Save", "checks": 6000, "shards": 12, "timeout": 3000},
+            {"run": "TestC08_Save", "checks": 15000, "shards": 12, "timeout": 7200},
         ],
     },
     "C09": {
@@ -109,8 +109,8 @@ PLAN = {
             {"run": "TestC09_History", "checks": 6, "cores": 8},
         ],
         "thorough": [
-            {"run": "TestC09_Notebook", "checks": 400, "shards": 4, "cores": 4, "timeout": 3000},
-            {"run": "TestC09_History", "checks": 200, "shards": 4, "cores": 4, "timeout": 3000},
+            {"run": "TestC09_Notebook", "checks": 1000, "shards": 4, "cores": 4, "timeout": 7200},
+            {"run": "TestC09_History", "checks": 500, "shards": 4, "cores": 4, "timeout": 7200},
         ],
     },
     "C10": {
@@ -120,9 +120,9 @@ PLAN = {
             {"run": "FuzzC10_LoadSearch"},
         ],
         "thorough": [
-            {"run": "TestC10_Totality", "checks": 100000, "shards": 16, "timeout": 3000},
+            {"run": "TestC10_Totality", "checks": 300000, "shards": 16, "timeout": 7200},
             {"run": "TestC10_Missing|TestC10_Replay"},
-            {"run": "FuzzC10_LoadSearch", "fuzz": "FuzzC10_LoadSearch", "fuzztime": "240s", "parallel": 16, "timeout": 900},
+            {"run": "FuzzC10_LoadSearch", "fuzz": "FuzzC10_LoadSearch", "fuzztime": "480s", "parallel": 16, "timeout": 1500},
         ],
     },
     "C11": {
@@ -132,9 +132,9 @@ PLAN = {
             {"run": "TestC11_FirstUse", "checks": 60, "race": True},
         ],
         "thorough": [
-            {"run": "TestC11_Programs", "checks": 3000, "race": True, "shards": 8, "timeout": 3000},
-            {"run": "TestC11_LRULinearizable", "checks": 20000, "race": True, "shards": 8, "timeout": 3000},
-            {"run": "TestC11_FirstUse", "checks": 2000, "race": True, "shards": 4, "timeout": 3000},
+            {"run": "TestC11_Programs", "checks": 7500, "race": True, "shards": 8, "timeout": 7200},
+            {"run": "TestC11_LRULinearizable", "checks": 50000, "race": True, "shards": 8, "timeout": 7200},
+            {"run": "TestC11_FirstUse", "checks": 5000, "race": True, "shards": 4, "timeout": 7200},
         ],
     },
     "C12": {
@@ -144,9 +144,9 @@ PLAN = {
             {"run": "TestC12_SearchCache", "checks": 3000},
         ],
         "thorough": [
-            {"run": "TestC12_Model", "checks": 200000, "shards": 12, "timeout": 3000},
-            {"run": "TestC12_Timed", "checks": 2000, "shards": 4, "timeout": 3000},
-            {"run": "TestC12_SearchCache", "checks": 100000, "shards": 2, "timeout": 3000},
+            {"run": "TestC12_Model", "checks": 600000, "shards": 12, "timeout": 7200},
+            {"run": "TestC12_Timed", "checks": 6000, "shards": 4, "timeout": 7200},
+            {"run": "TestC12_SearchCache", "checks": 300000, "shards": 2, "timeout": 7200},
         ],
     },
     "C13": {
@@ -155,8 +155,8 @@ PLAN = {
             {"run": "TestC13_Analyzer", "checks": 1500},
         ],
         "thorough": [
-            {"run": "TestC13_Boosts", "checks": 200000, "shards": 12, "timeout": 3000},
-            {"run": "TestC13_Analyzer", "checks": 50000, "shards": 4, "timeout": 3000},
+            {"run": "TestC13_Boosts", "checks": 600000, "shards": 12, "timeout": 7200},
+            {"run": "TestC13_Analyzer", "checks": 150000, "shards": 4, "timeout": 7200},
         ],
     },
     "C14": {
@@ -166,9 +166,9 @@ PLAN = {
             {"run": "FuzzC14_ValidateQuery"},
         ],
         "thorough": [
-            {"run": "TestC14_Query", "checks": 2000000, "shards": 14, "timeout": 3000},
-            {"run": "TestC14_Limit", "checks": 200000, "shards": 2, "timeout": 3000},
-            {"run": "FuzzC14_ValidateQuery", "fuzz": "FuzzC14_ValidateQuery", "fuzztime": "120s", "parallel": 16, "timeout": 900},
+            {"run": "TestC14_Query", "checks": 6000000, "shards": 14, "timeout": 7200},
+            {"run": "TestC14_Limit", "checks": 600000, "shards": 2, "timeout": 7200},
+            {"run": "FuzzC14_ValidateQuery", "fuzz": "FuzzC14_ValidateQuery", "fuzztime": "240s", "parallel": 16, "timeout": 1500},
         ],
     },
     "C15": {
@@ -177,8 +177,8 @@ PLAN = {
             {"run": "TestC15_Transient", "checks": 400},
         ],
         "thorough": [
-            {"run": "TestC15_Matrix", "checks": 208, "shards": 16, "timeout": 3000},
-            {"run": "TestC15_Transient", "checks": 40000, "shards": 4, "timeout": 3000},
+            {"run": "TestC15_Matrix", "checks": 520, "shards": 16, "timeout": 7200},
+            {"run": "TestC15_Transient", "checks": 100000, "shards": 4, "timeout": 7200},
         ],
     },
     "C16": {
@@ -190,10 +190,10 @@ PLAN = {
             {"run": "FuzzC16_HistoryFile"},
         ],
         "thorough": [
-            {"run": "TestC16_Log", "checks": 150000, "shards": 10, "timeout": 3000},
-            {"run": "TestC16_File", "checks": 1000000, "shards": 6, "timeout": 3000},
-            {"run": "TestC16_CLIViews", "checks": 1500, "shards": 2, "timeout": 3000},
-            {"run": "FuzzC16_HistoryFile", "fuzz": "FuzzC16_HistoryFile", "fuzztime": "120s", "parallel": 16, "timeout": 900},
+            {"run": "TestC16_Log", "checks": 150000, "shards": 10, "timeout": 7200},
+            {"run": "TestC16_File", "checks": 1000000, "shards": 6, "timeout": 7200},
+            {"run": "TestC16_CLIViews", "checks": 1500, "shards": 2, "timeout": 7200},
+            {"run": "FuzzC16_HistoryFile", "fuzz": "FuzzC16_HistoryFile", "fuzztime": "240s", "parallel": 16, "timeout": 1500},
         ],
     },
     "C17": {
@@ -203,8 +203,8 @@ PLAN = {
             {"run": "TestC17_Subcommands", "checks": 900},
         ],
         "thorough": [
-            {"run": "TestC17_Search", "checks": 6000, "shards": 10, "timeout": 3000},
-            {"run": "TestC17_Subcommands", "checks": 12000, "shards": 6, "timeout": 3000},
+            {"run": "TestC17_Search", "checks": 12000, "shards": 10, "timeout": 7200},
+            {"run": "TestC17_Subcommands", "checks": 24000, "shards": 6, "timeout": 7200},
         ],
     },
     "C18": {
@@ -214,9 +214,9 @@ PLAN = {
             {"run": "TestC18_Concurrent", "checks": 150, "race": True},
         ],
         "thorough": [
-            {"run": "TestC18_Identity", "checks": 800000, "shards": 10, "timeout": 3000},
-            {"run": "TestC18_Monitor", "checks": 200000, "shards": 4, "timeout": 3000},
-            {"run": "TestC18_Concurrent", "checks": 2000, "race": True, "shards": 2, "timeout": 3000},
+            {"run": "TestC18_Identity", "checks": 2400000, "shards": 10, "timeout": 7200},
+            {"run": "TestC18_Monitor", "checks": 600000, "shards": 4, "timeout": 7200},
+            {"run": "TestC18_Concurrent", "checks": 6000, "race": True, "shards": 2, "timeout": 7200},
         ],
     },
     "C19": {
@@ -228,10 +228,10 @@ PLAN = {
             {"run": "FuzzC19_EmbeddingFiles"},
         ],
         "thorough": [
-            {"run": "TestC19_Files", "checks": 5000, "shards": 8, "timeout": 3000},
-            {"run": "TestC19_Cosine", "checks": 1000000, "shards": 4, "timeout": 3000},
-            {"run": "TestC19_Search", "checks": 100000, "shards": 4, "timeout": 3000},
-            {"run": "FuzzC19_EmbeddingFiles", "fuzz": "FuzzC19_EmbeddingFiles", "fuzztime": "180s", "parallel": 16, "timeout": 900},
+            {"run": "TestC19_Files", "checks": 15000, "shards": 8, "timeout": 7200},
+            {"run": "TestC19_Cosine", "checks": 3000000, "shards": 4, "timeout": 7200},
+            {"run": "TestC19_Search", "checks": 300000, "shards": 4, "timeout": 7200},
+            {"run": "FuzzC19_EmbeddingFiles", "fuzz": "FuzzC19_EmbeddingFiles", "fuzztime": "360s", "parallel": 16, "timeout": 1500},
         ],
     },
     "C20": {
@@ -241,8 +241,8 @@ PLAN = {
             {"run": "TestC20_CLI", "checks": 60},
         ],
         "thorough": [
-            {"run": "TestC20_Engine", "checks": 300000, "shards": 14, "timeout": 3000},
-            {"run": "TestC20_CLI", "checks": 3000, "shards": 2, "timeout": 3000},
+            {"run": "TestC20_Engine", "checks": 900000, "shards": 14, "timeout": 7200},
+            {"run": "TestC20_CLI", "checks": 9000, "shards": 2, "timeout": 7200},
         ],
     },
 }
